@@ -6,6 +6,7 @@ import (
 
 	"github.com/freeconf/yang/meta"
 	"github.com/freeconf/yang/node"
+	"github.com/freeconf/yang/val"
 )
 
 type mapAsContainer struct {
@@ -69,7 +70,7 @@ func (def *mapAsList) getByKey(r node.ListRequest) (reflect.Value, error) {
 	if !isKeyValid(r.Key) {
 		return empty, fmt.Errorf("no key specified for %s", r.Path.String())
 	}
-	keyVal := reflect.ValueOf(r.Key[0].Value())
+	keyVal := mapKeyValue(r.Key[0])
 	found := def.src.MapIndex(keyVal)
 	if !found.IsValid() {
 		return empty, nil
@@ -81,7 +82,7 @@ func (def *mapAsList) deleteByKey(r node.ListRequest) error {
 	if !isKeyValid(r.Key) {
 		return fmt.Errorf("no key specified for %s", r.Path.String())
 	}
-	keyVal := reflect.ValueOf(r.Key[0].Value())
+	keyVal := mapKeyValue(r.Key[0])
 	def.src.SetMapIndex(keyVal, reflect.ValueOf(nil))
 	return nil
 }
@@ -107,7 +108,16 @@ func (def *mapAsList) newListItem(r node.ListRequest) (reflect.Value, error) {
 	if err != nil {
 		return empty, err
 	}
-	keyVal := reflect.ValueOf(r.Key[0].Value())
+	keyVal := mapKeyValue(r.Key[0])
 	def.src.SetMapIndex(keyVal, itemVal)
 	return itemVal, nil
+}
+
+// what an entry of a map-backed list is filed under: the value of its key leaf, except that
+// a binary key is a []byte, which no Go map takes as a key - its bytes as a string then
+func mapKeyValue(k val.Value) reflect.Value {
+	if b, isBytes := k.Value().([]byte); isBytes {
+		return reflect.ValueOf(string(b))
+	}
+	return reflect.ValueOf(k.Value())
 }
